@@ -21,11 +21,12 @@ func compileLogicalOrImpl(
 	ctx context.Context[parser.ILogicalOrExpressionContext],
 ) (types.Type, error) {
 	ands := ctx.AST.AllLogicalAndExpression()
-	if _, err := compileLogicalAnd(context.Child(ctx, ands[0])); err != nil {
+	operandType, err := compileLogicalAnd(context.Child(ctx, ands[0]))
+	if err != nil {
 		return types.Type{}, err
 	}
 
-	normalizeBoolean(ctx)
+	EmitTruthiness(ctx, operandType)
 
 	// Process remaining operands with short-circuit evaluation
 	for i := 1; i < len(ands); i++ {
@@ -37,10 +38,10 @@ func compileLogicalOrImpl(
 		ctx.Writer.WriteI32Const(1)
 		ctx.Writer.WriteOpcode(wasm.OpElse)
 		// False case: evaluate right operand
-		if _, err := compileLogicalAnd(context.Child(ctx, ands[i])); err != nil {
+		if operandType, err = compileLogicalAnd(context.Child(ctx, ands[i])); err != nil {
 			return types.Type{}, err
 		}
-		normalizeBoolean(ctx)
+		EmitTruthiness(ctx, operandType)
 		ctx.Writer.WriteOpcode(wasm.OpEnd)
 	}
 	return types.U8(), nil
@@ -50,12 +51,13 @@ func compileLogicalAndImpl(ctx context.Context[parser.ILogicalAndExpressionConte
 	eqs := ctx.AST.AllEqualityExpression()
 
 	// Compile first operand
-	if _, err := compileEquality(context.Child(ctx, eqs[0])); err != nil {
+	operandType, err := compileEquality(context.Child(ctx, eqs[0]))
+	if err != nil {
 		return types.Type{}, err
 	}
 
 	// Normalize the first operand
-	normalizeBoolean(ctx)
+	EmitTruthiness(ctx, operandType)
 
 	// Process remaining operands with short-circuit evaluation
 	for i := 1; i < len(eqs); i++ {
@@ -68,22 +70,34 @@ func compileLogicalAndImpl(ctx context.Context[parser.ILogicalAndExpressionConte
 		ctx.Writer.WriteI32Const(0)
 		ctx.Writer.WriteOpcode(wasm.OpElse)
 		// False case (was non-zero): evaluate right operand
-		if _, err := compileEquality(context.Child(ctx, eqs[i])); err != nil {
+		if operandType, err = compileEquality(context.Child(ctx, eqs[i])); err != nil {
 			return types.Type{}, err
 		}
 		// Normalize the result
-		normalizeBoolean(ctx)
+		EmitTruthiness(ctx, operandType)
 		ctx.Writer.WriteOpcode(wasm.OpEnd)
 	}
 
 	return types.U8(), nil
 }
 
-// normalizeBoolean converts any non-zero i32 value to 1
-func normalizeBoolean[ASTNode antlr.ParserRuleContext](ctx context.Context[ASTNode]) {
-	// Convert any non-zero value to 1
-	// value != 0 ? 1 : 0
-	// This is equivalent to: (value != 0)
-	ctx.Writer.WriteI32Const(0)
-	ctx.Writer.WriteOpcode(wasm.OpI32Ne)
+// EmitTruthiness converts the value of type t on top of the stack to the i32
+// boolean 0 or 1 (value != 0). An untyped integer or float literal used as a
+// boolean (`2 and 3`, `if 1 {`) is carried as i64 / f64, so the comparison
+// must match the operand's WASM type.
+func EmitTruthiness[ASTNode antlr.ParserRuleContext](ctx context.Context[ASTNode], t types.Type) {
+	switch wasm.ConvertType(t) {
+	case wasm.I64:
+		ctx.Writer.WriteI64Const(0)
+		ctx.Writer.WriteOpcode(wasm.OpI64Ne)
+	case wasm.F64:
+		ctx.Writer.WriteF64Const(0)
+		ctx.Writer.WriteOpcode(wasm.OpF64Ne)
+	case wasm.F32:
+		ctx.Writer.WriteF32Const(0)
+		ctx.Writer.WriteOpcode(wasm.OpF32Ne)
+	default:
+		ctx.Writer.WriteI32Const(0)
+		ctx.Writer.WriteOpcode(wasm.OpI32Ne)
+	}
 }
